@@ -127,7 +127,8 @@ void fp_rdcn_low(dig_t *c, dig_t *a) {
 			RLC_COMBA_STEP_MUL(r2, r1, r0, *tmp, *tmpm);
 		}
 		RLC_COMBA_ADD(t, r2, r1, r0, *a);
-		*tmpc = (dig_t)(r0 * u);
+		/* 1U: digits narrower than int must not be multiplied as (signed) int. */
+		*tmpc = (dig_t)(1U * r0 * u);
 		RLC_COMBA_STEP_MUL(r2, r1, r0, *tmpc, *m);
 		r0 = r1;
 		r1 = r2;
